@@ -365,6 +365,16 @@ BClone ==
            M == Put(r[1], r[2])
        IN Commit(M, Event(M, "b_clone", h, 0, 0, 0, 0, 0, <<>>, "ok", <<nh>>, -9), Prog("b_clone", h, Z, Z, 0, 0, 0))
 
+\* Clone::clone_from (the default): *self = source.clone() -- the clone is made first, then the
+\* old value of self is dropped
+BCloneFrom ==
+  /\ En("b_clone_from") /\ Room(1)
+  /\ \E h \in Live("B"), o \in Live("B") :
+       /\ h # o
+       /\ LET r == CloneB(Mach, o)
+              M == Ins(DropB(Del(r[1], h), hd[h]), h, r[2])
+          IN Commit(M, Event(M, "b_clone_from", h, 0, 0, 0, o, 0, <<>>, "ok", <<>>, -9), Prog("b_clone_from", h, Z, Z, 0, o, 0))
+
 BSlice ==
   /\ En("b_slice") /\ HRoom /\ Room(1)
   /\ \E h \in Live("B"), sa \in {Abs(0), Abs(1), Arg("len", 0), Arg("len", 1)}, sb \in {Abs(1), Arg("len", -1), Arg("len", 0), Arg("len", 1), Arg("max", 0)} :
@@ -773,7 +783,7 @@ BSliceRef ==
                ELSE PanicStep("b_slice_ref", h, 0, yy, 3, o, prog)
 
 Next ==
-  \/ MClone \/ MClear \/ MCopyToBytes \/ MResize \/ BSliceRef
+  \/ MClone \/ MClear \/ MCopyToBytes \/ MResize \/ BSliceRef \/ BCloneFrom
   \/ BNew \/ BStatic \/ BFromVec \/ BFromOwner \/ MWithCapacity \/ MFromSlice
   \/ BClone \/ BSlice \/ BSplitOff \/ BSplitTo \/ BTruncate \/ BClear \/ BAdvance
   \/ BIntoVec \/ BIntoMut \/ BTryIntoMut \/ DropAny \/ VIntoBytes
